@@ -658,7 +658,15 @@ def _work_conn(item):
         return (cred, label_of(cch), label_of(sch), "invalid", None, None)
     base_cred = cred.split("+")[0]
     must, why = must_connect(cst, sst, base_cred)
-    if cred.endswith("+clientauth"):
+    if cred.endswith("+clientauth-ecdsa"):
+        # the client's own certificate has to be usable as well: its key
+        # type's schemes as listed by the server and enabled on the client
+        V2, _ = negotiated_version(cst, sst)
+        if must and not (V2 and sig_ok(sst, cst, "ecdsa", V2)):
+            must, why = False, "no signature scheme for the client's key"
+        sc = S.Scen("c19/%s" % cred, cred=base_cred, client_cred="c_ecdsa",
+                    req_cert=True)
+    elif cred.endswith("+clientauth"):
         sc = S.Scen("c19/%s" % cred, cred=base_cred, client_cred="c_rsa",
                     req_cert=True)
     else:
@@ -746,6 +754,15 @@ def run_connection(res, tier, seed):
             items.append(("rsa+clientauth", a, b, seed))
             items.append(("rsa+clientauth", a, b + (("maxVersion", max12),),
                           seed))
+    # an ECDSA client certificate against every signature-related change
+    # of the server (its CertificateRequest may then list no RSA algorithm)
+    sigdims = ("rsaSigHashes", "rsaSchemes", "ecdsaSigHashes",
+               "dsaSigHashes", "more_sig_schemes")
+    for b in [()] + [x for x in singles if x and x[0][0] in sigdims]:
+        for scred in ("ecdsa", "rsa"):
+            items.append((scred + "+clientauth-ecdsa", (m12,), b + (m12,),
+                          seed))
+            items.append((scred + "+clientauth-ecdsa", (), b, seed))
     demanded = 0
     n = 0
     for (cred, la, lb, outc, must, why) in pmap(_work_conn, items):
